@@ -189,22 +189,30 @@ def quat_matrix(q):
 
 def transformed(mol, conf_id, tr):
     """Copy of `mol` holding one conformer: conformer `conf_id` moved by tr = {"q": quat, "t": vec, "reflect": bool,
-    "perturb": [seed, scale]}; returns (mol, conf)."""
+    "perturb": [seed, scale], "quant": k (snap to the 2^-k grid first), "origin_atom": i (then put atom i on the origin)};
+    returns (mol, conf)."""
     m = Chem.Mol(mol)
     conf = Chem.Conformer(mol.GetConformer(conf_id))
     X = np.array([list(conf.GetAtomPosition(i)) for i in range(conf.GetNumAtoms())], dtype=float)
     if tr:
-        if tr.get("perturb"):
-            r = np.random.RandomState(tr["perturb"][0])
-            X = X + r.uniform(-1, 1, X.shape) * tr["perturb"][1]
         if tr.get("displace"):
             r = np.random.RandomState(tr["displace"]["seed"])
             for i in tr["displace"]["atoms"]:
                 X[i] = X[i] + r.uniform(-3, 3, 3)
+        if tr.get("quant"):
+            # snap to the grid 2^-quant: with |x| < 2^10 every difference and every sum with a grid vector is exact in double
+            g = float(2 ** tr["quant"])
+            X = np.round(X * g) / g
+        if tr.get("perturb"):
+            r = np.random.RandomState(tr["perturb"][0])
+            X = X + r.uniform(-1, 1, X.shape) * tr["perturb"][1]
         if tr.get("reflect"):
             X = X * np.array([1.0, 1.0, -1.0])
         if tr.get("q"):
             X = X @ quat_matrix(tr["q"]).T
+        if tr.get("origin_atom") is not None:
+            heavy = [a.GetIdx() for a in mol.GetAtoms() if a.GetAtomicNum() > 1] or [0]
+            X = X - X[heavy[tr["origin_atom"] % len(heavy)]]
         if tr.get("t"):
             X = X + np.array(tr["t"], dtype=float)
     for i in range(conf.GetNumAtoms()):
@@ -214,9 +222,9 @@ def transformed(mol, conf_id, tr):
     return m, m.GetConformer(0)
 
 
-def gen_transform(rng, reflect=False):
+def gen_transform(rng, reflect=False, kind=None):
     q = [rng.gauss(0, 1) for _ in range(4)]
-    u = rng.random()
+    u = 0.3 if kind == "diagonal" else rng.random()
     if u < 0.2:       # axis-aligned quarter turns
         q = rng.choice([[1, 1, 0, 0], [1, 0, 1, 0], [1, 0, 0, 1], [0, 1, 0, 0], [1, 1, 1, 1]])
     elif u < 0.4:     # an axis onto a cube diagonal (all components of an axial vector become equal), after a spin about it
